@@ -52,7 +52,7 @@ for pid, (ref, text, tech) in CLAIMED.items():
         "engine": "simbus",
         "level_claimed": {
             "category": "exploration",
-            "text": text + " Seeded search over schedules, fault sequences and workloads (quick: 2-3*10^5 runs incl. ~1 in 256 soak runs of 4000 steps, thorough: 60x more); a clean batch is evidence, not proof.",
+            "text": text + " Seeded search over schedules, fault sequences and workloads (quick: 2-3*10^5 runs incl. ~1 in 256 soak runs of 4000 steps, thorough: 40x more runs with longer histories - step budgets up to 1200 and one soak run in 64); a clean batch is evidence, not proof.",
             "design_ref": f"DESIGN.md section {ref}",
         },
         "level_note": "Trusted base: the stub bus/driver model, the reference code in sim/src/refmodel.rs (bitwise CRC-8, reference decoder, layouts) written from the property text and DSP0236/DSP0237, rustc release build with overflow-checks. Sampling only: inputs/schedules the profile never draws are not covered (probe counts in the evidence show what was reached).",
